@@ -105,8 +105,8 @@ def _cases(draw):
         add({"k": "q", "c": {"type": g.pick(["simserial", "subscriberid"]), "name": g.name("m")}})
     if g.p("_", 0.3):
         c = {"type": "image", "name": g.name(), "label": "pic"}
-        if g.p("_", 0.5):
-            c["parameters"] = "max-pixels=640"
+        if g.p("_", 0.6):
+            c["parameters"] = g.pick(["max-pixels=640", "app=com.example.camera", "max-pixels=640 app=com.example.camera", "app=org.a.b"])
         add({"k": "q", "c": c})
     if g.p("_", 0.3):
         add({"k": g.pick(["g", "r"]), "c": {"name": g.name("ug")}, "ch": [{"k": "q", "c": {"type": "text", "name": g.name(), "label": "in"}}]})
